@@ -9,6 +9,7 @@ import (
 	"time"
 
 	"github.com/oneconcern/datamon/pkg/core"
+	"github.com/oneconcern/datamon/pkg/model"
 
 	"verifharness/cafsh"
 	"verifharness/coreh"
@@ -74,8 +75,13 @@ func gen10(seed int64, tier string) []drv.Case {
 			pos := []int{len(evs), 0, len(evs) / 2}[r.Intn(3)]
 			evs = append(evs[:pos], append([]event{e}, evs[pos:]...)...)
 		}
-		p := params{Events: evs, RetainN: 1 + r.Intn(5), Tags: []string{"none", "all", "semver"}[r.Intn(3)], DelNil: r.Intn(2) == 0, Seed: r.Int63()}
 		cls := fmt.Sprintf("leftovers=%d", nLeft)
+		if i%8 == 7 && nb > 0 {
+			// the newest upload died while writing its descriptor on a store without atomic writes: empty bundle.yaml
+			evs = append(evs, event{Kind: "torn-descriptor-upload", Files: 1 + r.Intn(3)})
+			cls = "empty-descriptor-leftover"
+		}
+		p := params{Events: evs, RetainN: 1 + r.Intn(5), Tags: []string{"none", "all", "semver"}[r.Intn(3)], DelNil: r.Intn(2) == 0, Seed: r.Int63()}
 		cs = append(cs, drv.Case{ID: fmt.Sprintf("%s-%d", cls, i), Class: cls, Params: drv.MustJSON(p)})
 	}
 	return cs
@@ -85,6 +91,9 @@ func committed(env *coreh.Env) []string {
 	var ids []string
 	for _, k := range env.Meta.RawKeys() {
 		if strings.HasPrefix(k, "bundles/r/") && strings.HasSuffix(k, "/bundle.yaml") {
+			if raw, _ := env.Meta.RawGet(k); len(raw) == 0 {
+				continue // an empty descriptor is the leftover of an interrupted upload, not a committed bundle
+			}
 			ids = append(ids, strings.Split(k, "/")[2])
 		}
 	}
@@ -112,6 +121,7 @@ func run10(c drv.Case, res *drv.Result) {
 	trees := map[string]coreh.Tree{}
 	labels := map[string]string{} // label -> bundle (last assignment wins)
 	leftovers := 0
+	torn := 0
 	for i, e := range p.Events {
 		t := coreh.Tree{}
 		for f := 0; f < e.Files; f++ {
@@ -127,8 +137,13 @@ func run10(c drv.Case, res *drv.Result) {
 				must(env.SetLabel(nil, "r", l, id))
 				labels[l] = id
 			}
-		case "crashed-upload":
+		case "crashed-upload", "torn-descriptor-upload":
 			a := memstore.NewActor(fmt.Sprint("victim", i)).CrashWhen(func(c memstore.Call) bool { return true }, e.CrashK, e.After)
+			if e.Kind == "torn-descriptor-upload" {
+				// the client dies while writing its descriptor on a store without atomic writes: an empty bundle.yaml stays
+				a = memstore.NewActor(fmt.Sprint("victim", i)).CrashWhen(func(c memstore.Call) bool { return strings.HasSuffix(c.Key, "/bundle.yaml") }, 1, true).Torn()
+				torn++
+			}
 			done := make(chan struct{})
 			go func() {
 				_, _ = env.Upload(a, "r", src.For(nil), coreh.UploadOpts{Leaf: 4096, Concurrency: 1})
@@ -203,6 +218,27 @@ func run10(c drv.Case, res *drv.Result) {
 	cfg := fmt.Sprintf("tags=%s|leftover-newest=%v", p.Tags, leftoverNewest)
 	if actor.OverBudget() {
 		res.Violate("squash-does-not-terminate", fmt.Sprintf("delete-missing-nil=%v", p.DelNil), "RepoSquash issued more than %d store calls on %d objects (aborted by the budget): %v", 50*nObjects+10000, nObjects, err)
+		return
+	}
+	if torn > 0 {
+		// an empty descriptor makes listings fail on the unchanged tree, so squash may well refuse to run; whatever it
+		// reports, the metadata of every bundle that must survive has to be in the store afterwards
+		res.Stat("squashes_over_an_empty_descriptor", 1)
+		if err != nil {
+			res.Stat("squashes_refused_over_an_empty_descriptor", 1)
+		}
+		for id := range survivors {
+			if raw, ok := env.Meta.RawGet(model.GetArchivePathToBundle("r", id)); !ok || len(raw) == 0 {
+				cls := "a-bundle-to-keep"
+				if len(comm) > 0 && id == comm[len(comm)-1] {
+					cls = "most-recent-committed-bundle"
+				}
+				res.Violate("bundle-removed-by-squash-over-empty-descriptor", cls, "squash (retain %d, tags %s, result %v) removed the descriptor of %s, which had to be kept; committed before: %v (the repository also holds an empty bundle.yaml left by an interrupted upload)", p.RetainN, p.Tags, err, id, comm)
+				return
+			}
+		}
+		res.Nontrivial, res.Canon = len(comm) > 0, string(c.Params)
+		res.Sample = map[string]interface{}{"committed": len(comm), "empty_descriptors": torn, "retain_n": p.RetainN, "tags": p.Tags, "squash_result": fmt.Sprint(err)}
 		return
 	}
 	if err != nil {
